@@ -21,6 +21,9 @@ SPEC = dict(
         dict(name="blocked", kind="test", pkg="./overlord/state", run="TestVerifC07Blocked",
              n=dict(quick=300, thorough=20000), timeout=dict(quick=300, thorough=1200),
              ev=dict(_EV, case_type="Blocked.case", mismatch="Blocked.mismatch", monitor="Blocked.monitor_fail")),
+        dict(name="order", kind="test", pkg="./overlord/state", run="TestVerifC07BlockedOrder",
+             n=dict(quick=100, thorough=5000), timeout=dict(quick=300, thorough=1200),
+             ev=dict(_EV, case_type="Blocked.case", mismatch="Blocked.mismatch", monitor="Blocked.monitor_fail")),
         dict(name="run", kind="test", pkg="./overlord/state", run="TestVerifC07Run",
              n=dict(quick=60, thorough=1500), timeout=dict(quick=300, thorough=1800),
              ev=dict(_EV, case_type="list Blocked.case", mismatch="(existsb Blocked.mismatch)",
@@ -43,6 +46,10 @@ SPEC = dict(
           "After every Ensure also all tombs with their cleanup flag. Two scripted scenarios reproduce a cleanup goroutine next to "
           "an executing update-gadget-assets handler (same pass; later pass after Change.Abort of a change with a done "
           "copy-snap-data task) - they run in `run` (handler monitor, quiet) and in `cleanup` (cleanup monitor, known finding). "
+          "order: the same candidate/running inputs against a second runner whose managers were constructed in the order "
+          "hookstate, devicestate, ifacestate, snapstate (other AddBlocked order): disjunction of the verdicts compared. "
+          "Each Ensure pass also records r.someBlocked (compared with: some runnable task left idle). Same-change family: each "
+          "conflicting pair as two independent tasks of ONE change. "
           "Abort family (scripted, run): for each of 8 conflicting pairs (two hooks of one snap, connect/disconnect, "
           "setup-profiles/auto-connect, two prerequisites, gadget update vs other in both directions, two gadget updates, hook "
           "vs gadget update) the first handler is executing when its change is aborted by the user (Change.Abort) or its lane "
@@ -63,6 +70,7 @@ SPEC = dict(
         "a run-hook task whose hook-setup cannot be read is not serialized by the hook predicate (Get error => not blocked / ignored), as in the code",
         "stub handlers ignore tomb.Dying() so that a handler keeps executing after its task was aborted (real handlers are only asked to stop); Change.Abort in random scripts is skipped when the change already has a Done task (DESIGN.md finding 11: Abort can panic there)",
         "which tasks are candidates in a pass (status, wait/halt dependencies, scheduled time) is an arbitrary input of the model (any list of candidates in any order), not modelled",
-        "TaskRunner.SetBlocked (replaces all predicates) is not used by production code and not modelled",
+        "TaskRunner.SetBlocked (replaces all predicates) is modelled (set_blocked) but not used by production code and not exercised",
+        "restarts (ERestart: a new TaskRunner has no tombs) and aborts (EAbort: tombs unchanged) are events of the model; aborts are exercised on the real runner, restarts are not (NewTaskRunner creates an empty tomb map by construction)",
     ],
 )
